@@ -148,7 +148,7 @@ def oneofRefFacts (pkg schema : Str) (href : refOk pkg schema = true) :
         (hmiss _ (by simp)) (t := [false, false, false, false, false])
         (vs := [.absent, .absent, .absent, .absent, .absent]) rfl rfl (.inr rfl) hs hp
   runB := by
-    intro sc pfx ek a b C hr _
+    intro sc pfx a b C hr _
     have hfbRef : findBlock b!"ref" [cfOf sOneofField specOneofField (a ++ b)] =
         some (cfOf sOneofField specOneofField (a ++ b), [b!"ref"]) :=
       findBlock_prop' (show aliasLookup b!"ref" specOneofField.aliases = none by decide +kernel)
@@ -223,7 +223,7 @@ def enumRefFacts (pkg schema : Str) (rules : J5V.Compile.Rules) (lr : Option (Li
         (hmiss _ (by simp)) (t := [false, false, false, false, false])
         (vs := [.absent, .absent, .absent, .absent, .absent]) rfl rfl (.inr rfl) hs hp
   runB := by
-    intro sc pfx ek a b C hr _
+    intro sc pfx a b C hr _
     have hu := rulesOk_unpack h rulesSchema_Enum schemaOf_EnumRules
     have hfbR : findBlock wRules [cfOf sEnumField specEnumField (a ++ b)] =
         some (cfOf sEnumField specEnumField (a ++ b), [wRules]) :=
